@@ -8,6 +8,7 @@
 EXTENDS Values
 
 CONSTANTS Big,   \* TRUE: larger universe (thorough)
+          Tiny,  \* TRUE: a dozen values only (self-test run)
           Dev    \* self-test deviation: "none", or "asym" (a string is smaller than a
                  \* number whichever side it is on - must violate AntiSym)
 
@@ -15,37 +16,41 @@ SX == INSTANCE SequencesExt
 SeqOf(S) == SX!SetToSeq(S)
 
 \* numbers: signs x exponents x digit sequences, zero, both infinities
-Digs == IF Big THEN { <<1>>, <<1, 2>>, <<1, 0, 5>>, <<9>>, <<3, 2, 7, 6, 8>>,
+Digs == IF Big THEN { <<1>>, <<1, 2>>, <<1, 0, 5>>, <<3, 2, 7, 6, 8>>,
                       <<1, 2, 3, 4, 5, 6, 7, 8, 9, 0, 1, 2, 3, 4, 5, 6, 7>> }
                ELSE { <<1>>, <<1, 2>>, <<1, 0, 5>>, <<9>> }
-Exps == IF Big THEN {-3, 0, 1, 2, 5, 17} ELSE {0, 1, 6}
+Exps == IF Big THEN {-3, 0, 1, 5, 17} ELSE {0, 1}
 NumSet == {Zero, Num(2, 0, <<>>), Num(-2, 0, <<>>)} \cup
           {Num(s, x, d) : s \in {-1, 1}, x \in Exps, d \in Digs}
 
 \* strings: every byte sequence of length <= 2 over a small alphabet incl. 0 and 255
-Alpha == IF Big THEN {0, 49, 97, 98, 255} ELSE {0, 97, 255}
+Alpha == IF Big THEN {0, 49, 97, 255} ELSE {0, 97, 255}
 StrSet == {Str(<<>>)} \cup {Str(<<a>>) : a \in Alpha} \cup {Str(<<a, b>>) : a, b \in Alpha}
 
-DateSet == {Date(d, t, x) : d \in {20200101, 20200102}, t \in {0, 120000000},
-                            x \in (IF Big THEN {0, 1, 255} ELSE {0, 7})}
+DateSet == {Date(d, t, x) : d \in (IF Big THEN {20200101, 20200102} ELSE {20200101}),
+                            t \in {0, 120000000}, x \in (IF Big THEN {0, 1, 255} ELSE {0, 7})}
+           \cup {Date(17000101, 0, 0)}
 
 One == Num(1, 1, <<1>>)
 Two == Num(1, 1, <<2>>)
 SA  == Str(<<97>>)
 SB  == Str(<<98>>)
-Elems == IF Big THEN {One, Two, SA, EmptyStr, True, Date(20200101, 0, 0)} ELSE {One, Two, SA}
+Elems == IF Big THEN {One, Two, SA, True} ELSE {One, SA}
 Lists == {<<>>} \cup {<<a>> : a \in Elems} \cup {<<a, b>> : a, b \in Elems}
 Nameds == << <<>>, << <<SA, One>> >>, << <<SA, Two>> >>,
              << <<SA, One>>, <<SB, Two>> >>, << <<SB, Two>>, <<SA, One>> >>,   \* same members, two orders
              << <<Num(1, 6, <<1>>), SA>> >> >>
-FlatObjs == {Obj(l, Nameds[k]) : l \in Lists, k \in (IF Big THEN 1..6 ELSE {1, 2, 4, 5})}
+FlatObjs == {Obj(l, Nameds[k]) : l \in Lists, k \in (IF Big THEN {1, 2, 4, 5, 6} ELSE {1, 4, 5})}
 E0 == Obj(<<>>, <<>>)
 O1 == Obj(<<One>>, <<>>)
 Nested == { Obj(<<E0>>, <<>>), Obj(<<O1>>, <<>>), Obj(<<O1, Two>>, <<>>), Obj(<<Obj(<<One, Two>>, <<>>)>>, <<>>),
             Obj(<<Obj(<<One>>, << <<SA, One>> >>)>>, <<>>), Obj(<<One>>, << <<O1, E0>> >>),
             Obj(<<Obj(<<O1>>, <<>>)>>, <<>>), Obj(<<>>, << <<SA, Obj(<<>>, << <<SA, One>> >>)>> >>) }
 
-U == <<True, False>> \o SeqOf(NumSet) \o SeqOf(StrSet) \o SeqOf(DateSet) \o SeqOf(FlatObjs) \o SeqOf(Nested)
+U == IF Tiny THEN <<True, False, Zero, One, Num(-1, 1, <<1, 2>>), EmptyStr, SA, Str(<<97, 0>>),
+                     Date(20200101, 0, 0), Date(20200101, 0, 7), E0, O1,
+                     Obj(<<>>, << <<SA, One>>, <<SB, Two>> >>), Obj(<<>>, << <<SB, Two>>, <<SA, One>> >>)>>
+     ELSE <<True, False>> \o SeqOf(NumSet) \o SeqOf(StrSet) \o SeqOf(DateSet) \o SeqOf(FlatObjs) \o SeqOf(Nested)
 
 CmpX(a, b) == IF Dev = "asym" /\ ((a.t = "num" /\ b.t = "str") \/ (a.t = "str" /\ b.t = "num")) THEN 1
               ELSE Cmp(a, b)
